@@ -103,14 +103,14 @@ def plan_C06(tier, seed):
 
 def plan_C07(tier, seed):
     return dict(level="exploration", rule=RULE_ARENA + "; C07 oracle: conservation check (sum of usable bytes of ledger blocks <= limit) on every chunk acquisition while a limit is set; fitting requests must succeed; twin run without the feature",
-                shards=arena_shards(seed, tier, ["limits"], 100, 1000, miri_q=0, miri_t=2, asan_t=0)
-                + [sh(e, "limit_twin", seed, i, ma=ma, iters=(40 if tier == "quick" else 400)) for i, (e, ma) in enumerate([(e, ma) for e in ("debug", "release") for ma in MAS])],
+                shards=arena_shards(seed, tier, ["limits"], 100, 3000, miri_q=0, miri_t=2, asan_t=0)
+                + [sh(e, "limit_twin", seed, i, ma=ma, iters=(40 if tier == "quick" else 2500)) for i, (e, ma) in enumerate([(e, ma) for e in ("debug", "release") for ma in MAS])],
                 require={"c07.acquire_under_limit": 300}, assumptions=ASSUME_COMMON)
 
 
 def plan_C08(tier, seed):
     return dict(level="exploration", rule=RULE_ARENA + "; C08 oracle: self-reported bytes == ledger bytes after every call",
-                shards=arena_shards(seed, tier, ["chunks", "limits"], 80, 800, miri_q=0, miri_t=2, asan_t=0),
+                shards=arena_shards(seed, tier, ["chunks", "limits"], 80, 2500, miri_q=0, miri_t=2, asan_t=0),
                 require={"c08.checks": 50000}, assumptions=ASSUME_COMMON)
 
 
@@ -186,7 +186,7 @@ def plan_C18(tier, seed):
     for rep in range(1 if q else 6):
       for ma in MAS:
         for eng in ("debug", "release"):
-            shards.append(sh(eng, "c18", seed + 1000 * rep, n, timeout=1800, ma=ma, iters=(10 if q else 500), ops=150, quick=(1 if q else 0), vec_cases=(120 if q else 4000)))
+            shards.append(sh(eng, "c18", seed + 1000 * rep, n, timeout=1800, ma=ma, iters=(10 if q else 1500), ops=150, quick=(1 if q else 0), vec_cases=(120 if q else 12000)))
             n += 1
     for i in range(1 if q else 5):
         shards.append(sh("miri", "c18", seed, 100 + i, timeout=1500, ma=MAS[(seed + i) % 5] if i else 1, iters=0, ops=0, stride=3))
@@ -208,7 +208,7 @@ def plan_C19(tier, seed):
     # random histories that mix huge requests with ordinary ones (faults profile has them at weight 6)
     for ma in MAS:
         for eng in ("debug", "release"):
-            shards.append(sh(eng, "arena", seed, 100 + n, ma=ma, iters=(40 if q else 4000), ops=150, profile="faults"))
+            shards.append(sh(eng, "arena", seed, 100 + n, ma=ma, iters=(40 if q else 20000), ops=150, profile="faults"))
             n += 1
     # Vec programs containing splices whose replacement honestly announces an unreservable count
     for i, eng in enumerate(("debug", "release")):
@@ -290,7 +290,7 @@ def plan_C13(tier, seed):
     return dict(level="exploration",
                 rule=("one evaluation = one random program (150 ops) over 5 bumpalo Vecs (u8,u64,[u8;24],(),Tracked) sharing one arena with a String, Boxes and raw canaries, each Vec mirrored by a std Vec and compared after every op "
                       "(outcome class, returned values, contents, length, capacity promises), plus trait-surface cases on concrete element types (Hash, Ord, Debug with flags, every PartialEq operand form, Extend<&T>, Borrow/AsMut, IntoIter/Drain/Splice/DrainFilter auxiliary methods) against std; distinct = distinct op-sequence hashes"),
-                shards=coll_shards(seed, tier, "vecdiff", 400, 3000, 150) + trait_shards(seed, tier),
+                shards=coll_shards(seed, tier, "vecdiff", 400, 10000, 150) + trait_shards(seed, tier),
                 require={"traits.comparisons": 100000, "c13.ops": 50000, "c13.ops_panicking_on_both_sides": 3000, "c13.neighbour_checks": 5000, "vop.drain": 1000, "vop.splice": 1000, "vop.drain_filter": 500, "vop.into_iter": 500},
                 assumptions=ASSUME_COLL)
 
@@ -299,7 +299,7 @@ def plan_C15(tier, seed):
     return dict(level="exploration",
                 rule=("one evaluation = one random program (150 ops) over bumpalo Vecs of drop-tracked elements (unique ids), mirrored by std Vecs: after every op the multiset of element keys dropped by bumpalo must equal std's, "
                       "no id is dropped twice, every reachable element is live, leak-by-design conversions and arena drop run no destructor, and the still-live sets agree at the end; plus zero-sized-element drop counts and Box ownership transfers; distinct = distinct op-sequence hashes"),
-                shards=coll_shards(seed, tier, "vecdiff", 400, 3000, 150, extra={"tracked": 1}) + coll_shards(seed, tier, "boxdiff", 300, 3000, 60, miri_q=1, miri_t=4, asan_t=2),
+                shards=coll_shards(seed, tier, "vecdiff", 400, 6000, 150, extra={"tracked": 1}) + coll_shards(seed, tier, "boxdiff", 300, 6000, 60, miri_q=1, miri_t=4, asan_t=2),
                 require={"c15.ops_drop_sets_compared": 30000, "c15.drops_observed": 30000, "c15.zst_cases": 60, "c15.box_drop_checks": 2000},
                 assumptions=ASSUME_COLL)
 
@@ -348,6 +348,6 @@ def plan_C17(tier, seed):
     return dict(level="exploration",
                 rule=("one evaluation = one random program of 60 Box scenarios (16 kinds: comparison/hash/fmt against std::boxed::Box, drop ledger around drop/into_inner/into_raw/from_raw/leak/pin_in/downcast hit+miss, "
                       "array<->slice<->Vec conversions, boxed iterators/futures/hashers, arena accounting and allocator events around every drop); distinct = distinct scenario-sequence hashes"),
-                shards=coll_shards(seed, tier, "boxdiff", 400, 4000, 60, miri_q=1, miri_t=6, asan_t=3, miri_ops=30, miriflags="") + trait_shards(seed, tier),
+                shards=coll_shards(seed, tier, "boxdiff", 400, 20000, 60, miri_q=1, miri_t=6, asan_t=3, miri_ops=30, miriflags="") + trait_shards(seed, tier),
                 require={"traits.comparisons": 100000, "c17.monitored_drops": 10000, "c15.box_drop_checks": 10000},
                 assumptions=ASSUME_COLL)
